@@ -134,3 +134,49 @@ Proof.
     + intros a b Ha Hb. apply Anti; simpl; auto.
     + apply Permutation_cons_inv in Hp. exact Hp.
 Qed.
+
+(* ---- a canonical order: every permutation of the list sorts to the same result ------------------- *)
+Lemma fop_app_cross' {A} (R : A -> A -> Prop) : forall l1 l2 x y,
+  ForallOrdPairs R (l1 ++ l2) -> In x l1 -> In y l2 -> R x y.
+Proof.
+  induction l1 as [|a l1 IH]; intros l2 x y H Hx Hy; [contradiction|].
+  simpl in H. inversion H as [|? ? Ha Hrest]; subst.
+  destruct Hx as [<-|Hx].
+  - rewrite Forall_forall in Ha. apply Ha. apply in_or_app; auto.
+  - eapply IH; eauto.
+Qed.
+
+Lemma fop_perm' {A} (R : A -> A -> Prop) : (forall x y, R x y -> R y x) ->
+  forall l l', Permutation l l' -> ForallOrdPairs R l -> ForallOrdPairs R l'.
+Proof.
+  intros Hsym l l' Hp. induction Hp; intro H; auto.
+  - inversion H; subst. constructor; auto. eapply Permutation_Forall; eauto.
+  - inversion H as [|? ? Hy H']; subst. inversion H' as [|? ? Hx H'']; subst.
+    inversion Hy as [|? ? Hyx Hyl]; subst.
+    constructor; [constructor; auto|]. constructor; auto.
+Qed.
+
+Theorem msort_canonical {A} (cmp : A -> A -> Z) (l l' : list A) :
+  (forall x y z, In x l -> In y l -> In z l -> cmp x y <= 0 -> cmp y z <= 0 -> cmp x z <= 0) ->
+  (forall x y, In x l -> In y l -> cmp x y <= 0 -> cmp y x <= 0 -> False) ->
+  ForallOrdPairs (fun x y => cmp x y <= 0 \/ cmp y x <= 0) l ->
+  Permutation l l' -> msort cmp l = msort cmp l'.
+Proof.
+  intros Htr Has Htot Hp.
+  assert (forall x, In x l' -> In x l) as Hin' by (intros x Hx; eapply Permutation_in; [apply Permutation_sym; exact Hp|exact Hx]).
+  assert (ForallOrdPairs (fun x y => cmp x y <= 0 \/ cmp y x <= 0) l') as Htot'.
+  { eapply fop_perm'; [|exact Hp|exact Htot]. intros x y [H|H]; auto. }
+  apply (sorted_perm_unique (fun x y => cmp x y <= 0)).
+  - intros x y Hx Hy H1 H2. exfalso.
+    apply (Has x y); auto; eapply Permutation_in; try apply (msort_perm cmp l); auto.
+  - apply (msort_sorted cmp (fun x => In x l)).
+    + intros x y z. apply Htr.
+    + apply Forall_forall. auto.
+    + intros l1 l2 x y Hl Hx Hy. subst l. apply (fop_app_cross' _ l1 l2 x y Htot); auto.
+  - apply (msort_sorted cmp (fun x => In x l)).
+    + intros x y z. apply Htr.
+    + apply Forall_forall. auto.
+    + intros l1 l2 x y Hl Hx Hy. subst l'. apply (fop_app_cross' _ l1 l2 x y Htot'); auto.
+  - rewrite (msort_perm cmp l), (msort_perm cmp l'). exact Hp.
+  - auto.
+Qed.
